@@ -5,4 +5,6 @@ import "verif/harness/core"
 // Monitors maps property ids to their monitor.
 var Monitors = map[string]func(*core.Run){
 	"C01": RunC01,
+	"C02": RunC02,
+	"C03": RunC03,
 }
